@@ -85,7 +85,7 @@ impl<'a> Gen<'a> {
         self.next_tok += 1;
         let t = self.next_tok;
         match self.rng.below(8) {
-            0 => format!("T{t} {}", WORDS[self.rng.usize_below(WORDS.len())]),
+            0 | 2 => format!("T{t} {}", WORDS[self.rng.usize_below(WORDS.len())]),
             1 => format!("T{t}\nsecond line"),
             _ => format!("T{t}"),
         }
@@ -96,7 +96,11 @@ impl<'a> Gen<'a> {
             0 => Val::Null,
             1 => Val::Bool(self.rng.chance(1, 2)),
             2 => Val::Int(self.small_int()),
-            3 => Val::Str(self.ascii_word()),
+            3 => match self.rng.below(10) {
+                0..=5 => Val::Str(self.ascii_word()),
+                6..=8 => Val::Str(WORDS[self.rng.usize_below(WORDS.len())].to_string()),
+                _ => Val::Str("two\nlines ✓".to_string()),
+            },
             4 | 5 => {
                 let n = self.rng.usize_below(4);
                 Val::List((0..n).map(|_| self.rand_val(size - 1)).collect())
